@@ -10,6 +10,13 @@ branches I_L >= n, k_i = 0 and K_i = infinity reachable on the small curves):
   derive                           wallet.hd.derive_from_path(path, xkey)
   derive_stepwise                  the same path one component at a time (compared with the model's whole path)
   py_int                           Python's int(str) -- checks the model of the path-component parser
+
+extension (Model/Hd.v, Props/C09Ext.v) - the rest of wallet/hd.py:
+  derive_child                     hd.derive_child(xkey, index) as it is (xkey handed over as str or as bytes)
+  derive_child_body                the same call with hd.base58check_decode given the ASCII bytes of the str (the one
+                                   substitution that lets the body run; the model's derive_child_body)
+  hd_init / hd_from_mnemonic / hd_then_new / hd_get_root_keys / hd_from_xkey / hd_get_xkeys_from_path   class HD
+                                   (secrets.token_bytes scripted; the class attribute HD.mnemonic is an argument)
 """
 import hashlib
 import hmac as _hmac
@@ -18,7 +25,9 @@ from common import case, case_to_json, coq_bytes, short
 import common
 
 ID = "C09"
-MAKE_TARGETS = ["Props/C09.v", "GenProps/Bip32Gen.v"]
+MAKE_TARGETS = ["Props/C09.v", "GenProps/Bip32Gen.v", "Props/C09Ext.v"]
+# further Props files whose `Print Assumptions` blocks belong to this check (common.build_obligations)
+ASSUMPTION_FILES = ["Props/C09Ext.v"]
 GEN_TABLES = ["Bip32Gen"]
 ASSUMPTIONS = [
     "curve_facts p a b n G (chord-and-tangent addition is a commutative group, G has prime order n) and sqrt_facts "
@@ -505,6 +514,122 @@ def _master_chain(cv, M, seed, testnet, path):
     return (s, y, hd.get_xpub(y))
 
 
+
+# ---- extension: wallet/hd.py derive_child and class HD -------------------------------------------------------------
+def _txt(b):
+    return b.decode("utf-8")
+
+
+def _derive_child(cv, M, is_str, xkey, i):
+    import bits.wallet.hd as hd
+    r = hd.derive_child(_txt(xkey) if is_str else xkey, i)
+    return r.encode("ascii") if isinstance(r, str) else r
+
+
+def _derive_child_body(cv, M, xkey, i):
+    with _Ctx(cv, M):
+        import bits.wallet.hd as hd
+        real = hd.base58check_decode
+        hd.base58check_decode = lambda s_: real(s_.encode("ascii") if isinstance(s_, str) else s_)
+        try:
+            r = hd.derive_child(_txt(xkey), i)
+        finally:
+            hd.base58check_decode = real
+        return r.encode("ascii") if isinstance(r, str) else r
+
+
+class _HdCtx(_Ctx):
+    """curve / HMAC retargeting + scripted secrets.token_bytes + the class attribute HD.mnemonic set and restored"""
+
+    def __init__(self, cv, M, cls_mnemonic, entropies):
+        super().__init__(cv, M)
+        self.cls_mnemonic, self.entropies = cls_mnemonic, list(entropies)
+
+    def __enter__(self):
+        super().__enter__()
+        import secrets
+        import bits.wallet.hd as hd
+        self.hd, self.secrets, self.saved_tb, self.saved_mn = hd, secrets, secrets.token_bytes, hd.HD.mnemonic
+        ents = self.entropies
+
+        def token_bytes(nbytes=None):
+            e = ents.pop(0)
+            assert nbytes == len(e), "token_bytes(%r) where the scripted draw has %d bytes" % (nbytes, len(e))
+            return e
+        secrets.token_bytes = token_bytes
+        hd.HD.mnemonic = self.cls_mnemonic
+        return self
+
+    def __exit__(self, *a):
+        self.secrets.token_bytes = self.saved_tb
+        self.hd.HD.mnemonic = ""          # the pristine class attribute (never what a previous case left behind)
+        return super().__exit__(*a)
+
+
+def _hd_fields(w):
+    return (w.root_xprv.encode("ascii"), w.root_xpub.encode("ascii"), w.strength, w.seed, w.mnemonic.encode("utf-8"))
+
+
+def _hd_init(cv, M, cls_mnemonic, passphrase, entropy):
+    with _HdCtx(cv, M, _txt(cls_mnemonic), [entropy]) as x:
+        return _hd_fields(x.hd.HD(passphrase=_txt(passphrase)))
+
+
+def _hd_from_mnemonic(cv, M, mnemonic, passphrase, entropy):
+    with _HdCtx(cv, M, "", [entropy]) as x:
+        w = x.hd.HD.from_mnemonic(_txt(mnemonic), _txt(passphrase)) if passphrase is not None \
+            else x.hd.HD.from_mnemonic(_txt(mnemonic))
+        return _hd_fields(w)
+
+
+def _hd_then_new(cv, M, m1, p1, e1, p2, e2):
+    with _HdCtx(cv, M, "", [e1, e2]) as x:
+        x.hd.HD.from_mnemonic(_txt(m1), _txt(p1))
+        return _hd_fields(x.hd.HD(passphrase=_txt(p2)))
+
+
+def _hd_object(hd, k, c):
+    w = hd.HD.__new__(hd.HD)
+    w.extended_master_key = (k, c)
+    return w
+
+
+def _hd_get_root_keys(cv, M, k, c):
+    with _Ctx(cv, M):
+        import bits.wallet.hd as hd
+        a, b = _hd_object(hd, k, c).get_root_keys()
+        return (a.encode("ascii"), b.encode("ascii"))
+
+
+def _hd_from_xkey(cv, M, xkey):
+    import bits.wallet.hd as hd
+    return hd.HD.from_xkey(_txt(xkey))
+
+
+def _hd_get_xkeys_from_path(cv, M, k, c, path):
+    with _Ctx(cv, M):
+        import bits.wallet.hd as hd
+        a, b = _hd_object(hd, k, c).get_xkeys_from_path(path)
+        return (a.encode("ascii"), b.encode("ascii"))
+
+
+HD_OPS = ("derive_child", "derive_child_body", "hd_init", "hd_from_mnemonic", "hd_then_new", "hd_get_root_keys",
+          "hd_from_xkey", "hd_get_xkeys_from_path")
+
+
+def ref_phrase(entropy):
+    """the BIP39 sentence of the entropy (independent encoder of harness/c10.py)"""
+    import c10
+    w = c10.ref_mnemonic(entropy)
+    return None if w is None else " ".join(w).encode("ascii")
+
+
+def ref_seed(mnemonic, passphrase):
+    import unicodedata
+    nf = lambda t: unicodedata.normalize("NFKD", t).encode("utf-8")
+    return hashlib.pbkdf2_hmac("sha512", nf(_txt(mnemonic)), nf("mnemonic" + _txt(passphrase)), 2048)
+
+
 SEQ_FIELD_OPS = ("cli_hd", "ser_deser", "deser_ser_deser")
 
 
@@ -516,6 +641,9 @@ IMPL = {
     "ckdpriv": _ckdpriv, "ckdpub": _ckdpub, "commute": _commute, "master": _master, "ser": _ser, "deser": _deser, "deser_dict": _deser_dict,
     "get_xpub": _get_xpub, "derive": _derive, "derive_stepwise": _derive_stepwise,
     "py_int": lambda s: int(s),
+    "derive_child": _derive_child, "derive_child_body": _derive_child_body, "hd_init": _hd_init,
+    "hd_from_mnemonic": _hd_from_mnemonic, "hd_then_new": _hd_then_new, "hd_get_root_keys": _hd_get_root_keys,
+    "hd_from_xkey": _hd_from_xkey, "hd_get_xkeys_from_path": _hd_get_xkeys_from_path,
 }
 
 
@@ -524,8 +652,30 @@ def _cargs(cv, M):
     return [C["p"], C["a"], C["b"], C["n"], tuple(C["G"]), M]
 
 
+def _fresh_or_empty(e):
+    f = ref_phrase(e)
+    return b"" if f is None else f
+
+
 def model_call(c):
     op, a = c["op"], c["args"]
+    if op == "derive_child":
+        return "c09_derive_child", [bool(a[2]), a[3], a[4]]
+    if op == "derive_child_body":
+        return "c09_derive_child_body", _cargs(a[0], a[1]) + [a[2], a[3]]
+    if op == "hd_init":
+        return "c09_hd_init", _cargs(a[0], a[1]) + [a[2], a[3], _fresh_or_empty(a[4])]
+    if op == "hd_from_mnemonic":       # passphrase None = the default argument ""
+        return "c09_hd_init", _cargs(a[0], a[1]) + [a[2], b"" if a[3] is None else a[3], _fresh_or_empty(a[4])]
+    if op == "hd_then_new":
+        return "c09_hd_from_mnemonic_then_new", _cargs(a[0], a[1]) + [a[2], a[3], _fresh_or_empty(a[4]), a[5],
+                                                                      _fresh_or_empty(a[6])]
+    if op == "hd_get_root_keys":
+        return "c09_hd_get_root_keys", _cargs(a[0], a[1]) + [a[2], a[3]]
+    if op == "hd_from_xkey":
+        return "c09_hd_from_xkey", [a[2]]
+    if op == "hd_get_xkeys_from_path":
+        return "c09_hd_get_xkeys_from_path", [a[2], a[3], a[4]]
     if op in ("ckdpriv", "ckdpub", "commute", "deser", "get_xpub", "derive", "cli_hd"):
         return "c09_" + op, _cargs(a[0], a[1]) + list(a[2:])
     if op == "deser_dict":
@@ -1149,6 +1299,148 @@ def _gen_cli(rng, T, out):
         out.append(case("cli-hd-secp-refuse-vector5", "cli_hd", 0, 0, "m" if v.startswith("xprv") else "M", v.encode(), False, True, False))
 
 
+# ------------------------------------------------------------------------------------------
+# extension: wallet/hd.py derive_child / class HD
+# ------------------------------------------------------------------------------------------
+def _raw_xkey(version, depth, fp, child, cc, keydata):
+    return b58c(version + bytes([depth]) + fp + child.to_bytes(4, "big") + cc + keydata)
+
+
+def _classify_child(C, hf, X, i):
+    if not 0 <= i < (1 << 32):
+        return "index-range"
+    r = ref_child(C, hf, X, i)
+    return r if isinstance(r, str) else "ok"
+
+
+def _gen_hd(rng, T, out):
+    # ---- derive_child as it is: every argument is refused
+    Xs = _small_xk(rng, 43, False, testnet=False)
+    C43 = curve(43)
+    for is_str in (True, False):
+        for txt in (Xs.ser(), Xs.neuter(C43).ser(), _small_xk(rng, 43, False, testnet=True).ser(), b"", b"xprv", b"xpub",
+                    b"xprv1", b"xpr", b"Xprv" + Xs.ser()[4:], VECTORS[0][1][0][2].encode(), VECTORS[0][1][0][1].encode()):
+            for i in (0, H, -1):
+                kind = "str" if is_str else "bytes"
+                pre = "prefix" if txt[:4] in (b"xprv", b"xpub") else "noprefix"
+                out.append(case("derive_child-asis-%s-%s" % (kind, pre), "derive_child", 0, 0, is_str, txt, i))
+    # ---- the body on the small curves (toy HMAC: I_L >= n, k_i = 0, K_i = infinity reachable)
+    for cv in ([43, 79, 67] if T else [43, 79]):
+        C = curve(cv)
+        n = C["n"]
+        M = n + 2
+        hf = hm(M)
+        for _ in range(1200 if T else 150):
+            public = rng.random() < 0.45
+            X = _small_xk(rng, cv, public, testnet=False)
+            i = rng.choice(BOUNDARY_IDX + [-1, 1 << 32]) if rng.random() < 0.35 else \
+                _rand_index(rng, hardened=(False if public and rng.random() < 0.8 else None))
+            cls = _classify_child(C, hf, X, i)
+            out.append(case("dcb-small-%s-%s-%s" % ("pub" if public else "prv", "hard" if i >= H else "norm", cls),
+                            "derive_child_body", cv, M, X.ser(), i))
+        for public in (False, True):
+            # testnet keys: refused by the text prefix test
+            X = _small_xk(rng, cv, public, testnet=True)
+            out.append(case("dcb-small-testnet", "derive_child_body", cv, M, X.ser(), 0))
+            # depth byte overflow
+            X = _small_xk(rng, cv, public, testnet=False, depth=255)
+            out.append(case("dcb-small-depth-255", "derive_child_body", cv, M, X.ser(), 1))
+            X = _small_xk(rng, cv, public, testnet=False, depth=254)
+            out.append(case("dcb-small-depth-254", "derive_child_body", cv, M, X.ser(), 1))
+            # laxer than derive_from_path: depth 0 with a parent fingerprint / child number is taken
+            X = _small_xk(rng, cv, public, testnet=False, depth=0)
+            kd = X.payload()[45:]
+            out.append(case("dcb-small-depth0-fp", "derive_child_body", cv, M,
+                            _raw_xkey(X.version(), 0, b"\1\2\3\4", 0, X.cc, kd), 2))
+            out.append(case("dcb-small-depth0-child", "derive_child_body", cv, M,
+                            _raw_xkey(X.version(), 0, b"\0\0\0\0", 7, X.cc, kd), 2))
+            # version / key-data mismatch, unknown key prefix byte (UnboundLocalError in the message)
+            other = V_XPUB if not public else V_XPRV
+            out.append(case("dcb-small-version-mismatch", "derive_child_body", cv, M,
+                            _raw_xkey(other, 1, b"\1\2\3\4", 1, X.cc, kd), 0))
+            for b0 in (1, 4, 5, 0xff):
+                out.append(case("dcb-small-keyprefix-other", "derive_child_body", cv, M,
+                                _raw_xkey(X.version(), 1, b"\1\2\3\4", 1, X.cc, bytes([b0]) + kd[1:]), 0))
+            # payload length
+            for cut in (kd[:-1], kd + b"\0", kd[:1], b""):
+                out.append(case("dcb-small-length", "derive_child_body", cv, M,
+                                _raw_xkey(X.version(), 1, b"\1\2\3\4", 1, X.cc, cut), 0))
+            # text damage
+            sx = X.ser()
+            j = rng.randrange(5, len(sx))
+            out.append(case("dcb-small-checksum", "derive_child_body", cv, M, sx[:j] + (b"2" if sx[j:j + 1] != b"2" else b"3") + sx[j + 1:], 0))
+            out.append(case("dcb-small-badchar", "derive_child_body", cv, M, sx[:j] + b"0" + sx[j + 1:], 0))
+            out.append(case("dcb-small-noprefix", "derive_child_body", cv, M, sx[1:], 0))
+            out.append(case("dcb-small-noprefix", "derive_child_body", cv, M, b"", 0))
+            out.append(case("dcb-small-prefix-only", "derive_child_body", cv, M, sx[:4], 0))
+        # private key outside [1, n) (derive_child has no range check); public x without a point / x >= p
+        cc = rng.randbytes(32)
+        for k in (0, n, n + 1, (1 << 256) - 1):
+            for i in (0, H):
+                out.append(case("dcb-small-privkey-range", "derive_child_body", cv, M,
+                                _raw_xkey(V_XPRV, 1, b"\1\2\3\4", 1, cc, b"\0" + k.to_bytes(32, "big")), i))
+        for x in range(0, C["p"] + 2):
+            if lift_x(C, x, False) is None or x >= C["p"]:
+                out.append(case("dcb-small-pubkey-invalid", "derive_child_body", cv, M,
+                                _raw_xkey(V_XPUB, 1, b"\1\2\3\4", 1, cc, b"\2" + x.to_bytes(32, "big")), 0))
+                if not T and x > 8:
+                    break
+    # ---- the body on secp256k1 (few: Python EC arithmetic is slow): the BIP's vector keys and random keys
+    nodes = VECTORS[0][1]
+    for (path, xpub, xprv) in nodes[:2]:
+        out.append(case("dcb-secp-vector-prv", "derive_child_body", 0, 0, xprv.encode(), rng.choice([0, 1, H, H + 1])))
+        out.append(case("dcb-secp-vector-pub", "derive_child_body", 0, 0, xpub.encode(), rng.choice([0, 1, 2])))
+    for _ in range(12 if T else 2):
+        X = XK(False, rng.randrange(0, 5) or 1, rng.randbytes(4), _rand_index(rng), rng.randbytes(32), rng.randrange(1, SECP["n"]))
+        out.append(case("dcb-secp-prv", "derive_child_body", 0, 0, X.ser(), _rand_index(rng)))
+        out.append(case("dcb-secp-pub", "derive_child_body", 0, 0, X.neuter(SECP).ser(), _rand_index(rng, hardened=False)))
+    out.append(case("dcb-secp-pub-hardened", "derive_child_body", 0, 0, nodes[0][1].encode(), H))
+    # ---- class HD
+    phrase = b"abandon abandon abandon abandon abandon abandon abandon abandon abandon abandon abandon about"
+    texts = [phrase, b"legal winner thank year wave sausage worth useful legal winner thank yellow", b"x",
+             "caf\u00e9 na\u00efve \u30d1\u30b9\u30ef\u30fc\u30c9".encode("utf-8"), "\ufb01 \u2126".encode("utf-8"),
+             b"not a bip39 sentence at all", phrase + b" ", b" "]
+    passes = [b"", b"TREZOR", "\u30d1\u30b9 \ufb01".encode("utf-8"), b" "]
+    for cv in (43, 0):
+        reps = (60 if T else 14) if cv else (8 if T else 2)
+        for r in range(reps):
+            m = rng.choice(texts) if r >= len(texts) else texts[r]
+            pw = rng.choice(passes)
+            e = rng.randbytes(32)
+            uni = "unicode" if any(b > 127 for b in m + pw) else "ascii"
+            out.append(case("hd-from_mnemonic-%s-%s" % ("small" if cv else "secp", uni), "hd_from_mnemonic", cv, 0, m, pw, e))
+        out.append(case("hd-from_mnemonic-default-passphrase", "hd_from_mnemonic", cv, 0, phrase, None, rng.randbytes(32)))
+        # the class has no mnemonic: entropy is drawn (also: from_mnemonic("") draws)
+        for r in range((6 if T else 2) if cv else 1):
+            out.append(case("hd-init-draws", "hd_init", cv, 0, b"", rng.choice(passes), rng.randbytes(32)))
+            out.append(case("hd-from_mnemonic-empty-draws", "hd_from_mnemonic", cv, 0, b"", rng.choice(passes), rng.randbytes(32)))
+        out.append(case("hd-init-class-mnemonic", "hd_init", cv, 0, rng.choice(texts), rng.choice(passes), rng.randbytes(32)))
+        # from_mnemonic leaves the phrase in the class attribute
+        for r in range((6 if T else 2) if cv else 1):
+            out.append(case("hd-then-new-sticky", "hd_then_new", cv, 0, rng.choice(texts), rng.choice(passes), rng.randbytes(32),
+                            rng.choice(passes), rng.randbytes(32)))
+        out.append(case("hd-then-new-empty-first", "hd_then_new", cv, 0, b"", b"", rng.randbytes(32), b"pw", rng.randbytes(32)))
+    # get_root_keys on a hand-made extended_master_key
+    for cv in (43, 79):
+        C = curve(cv)
+        n = C["n"]
+        for k in [1, n - 1, rng.randrange(1, n)] + [rng.randrange(1, 1 << 256) for _ in range(6 if T else 2)]:
+            out.append(case("hd-root-keys-ok", "hd_get_root_keys", cv, 0, k, rng.randbytes(32)))
+        for k in (0, n, 2 * n):
+            out.append(case("hd-root-keys-infinity", "hd_get_root_keys", cv, 0, k, rng.randbytes(32)))
+        for k in (1 << 256, -1):
+            out.append(case("hd-root-keys-overflow", "hd_get_root_keys", cv, 0, k, rng.randbytes(32)))
+        for c in (b"", rng.randbytes(31), rng.randbytes(33)):
+            out.append(case("hd-root-keys-chaincode-length", "hd_get_root_keys", cv, 0, rng.randrange(1, n), c))
+    out.append(case("hd-root-keys-secp", "hd_get_root_keys", 0, 0, rng.randrange(1, SECP["n"]), rng.randbytes(32)))
+    # get_xkeys_from_path / from_xkey: refused whatever the argument
+    for path in ("m", "M", "m/0", "m/44'/0'/0'/0/0", "", "x", "m/"):
+        out.append(case("hd-get_xkeys_from_path", "hd_get_xkeys_from_path", 43, 0, rng.randrange(1, 31), rng.randbytes(32), path))
+    out.append(case("hd-get_xkeys_from_path", "hd_get_xkeys_from_path", 0, 0, rng.randrange(1, SECP["n"]), rng.randbytes(32), "m/0'"))
+    for x in (b"", VECTORS[0][1][0][1].encode(), VECTORS[0][1][0][2].encode()):
+        out.append(case("hd-from_xkey", "hd_from_xkey", 0, 0, x))
+
+
 def gen_cases(rng, tier):
     return _with_dict_mode(_gen_cases(rng, tier))
 
@@ -1164,6 +1456,7 @@ def _gen_cases(rng, tier):
     _gen_cli(rng, T, out)
     _gen_sequences(rng, T, out)
     _gen_magic(rng, T, out)
+    _gen_hd(rng, T, out)
     return out
 
 
@@ -1181,8 +1474,105 @@ def _same_pt(a, b):
     return (a is None and b is None) or (a is not None and b is not None and tuple(a) == tuple(b))
 
 
+def _oracle_hd(op, a):
+    """the literal statements of wallet/hd.py's docstrings against the independent BIP32 / BIP39 above"""
+    cv, M = a[0], a[1]
+    C, hf = curve(cv), hm(M)
+    if op in ("derive_child", "derive_child_body"):
+        if op == "derive_child":
+            is_str, xkey, i = a[2:]
+            ok, r = _try(lambda: _derive_child(cv, M, is_str, xkey, i))
+        else:
+            xkey, i = a[2:]
+            ok, r = _try(lambda: _derive_child_body(cv, M, xkey, i))
+        X = ref_parse(C, xkey)
+        if X is None or X.testnet or not 0 <= i < (1 << 32):
+            return None      # not a mainnet extended key / not a child number: outside the docstring's statement
+        if xkey[:4] != (b"xpub" if X.public else b"xprv"):
+            return "a serialised mainnet extended key does not start with xprv / xpub (premise of C09_ext_derive_child_body_is_step)"
+        want = ref_child(C, hf, X, i)
+        if isinstance(want, str):
+            return None if not ok else "derive_child returned a key where BIP32 gives none (%s)" % want
+        if op == "derive_child":
+            # as the function stands it refuses every argument (Props/C09Ext.v); a value, if any, must be the child
+            return None if (not ok or r == want.ser()) else "derive_child returned a key that is not the BIP32 child"
+        if not ok:
+            return "derive_child (body) raised %r on a valid derivation" % r
+        if r != want.ser():
+            return "derive_child (body) differs from the BIP32 child extended key"
+        ok2, r2 = _try(lambda: _derive(cv, M, path_text(X.public, [i]), xkey))
+        if not ok2 or r2 != r:
+            return "derive_child (body) differs from derive_from_path over the one-component path"
+        return None
+    if op in ("hd_init", "hd_from_mnemonic", "hd_then_new"):
+        f = {"hd_init": _hd_init, "hd_from_mnemonic": _hd_from_mnemonic, "hd_then_new": _hd_then_new}[op]
+        ok, r = _try(lambda: f(*a))
+        if op == "hd_then_new":
+            pw, allowed = a[5], [a[2], ref_phrase(a[6])]     # documented: the class attribute keeps m1
+            if not a[2]:
+                allowed = [ref_phrase(a[4]), ref_phrase(a[6])]
+            first = [(a[2] or ref_phrase(a[4]), a[3])]
+        else:
+            pw = a[3] or b""
+            allowed = [a[2]] if a[2] else [ref_phrase(a[4])]
+            first = []
+        if not ok:
+            # legitimate refusals: an invalid master key (2^-127), or - small curves only - a master key that is a
+            # multiple of the group order (no public key)
+            for (m_, p_) in first + [(m_, pw) for m_ in allowed]:
+                mk_ = ref_master(ref_seed(m_, p_))
+                if mk_ is None or ec_mul(C, mk_[0], C["G"]) is None:
+                    return None
+            return "HD raised %r for a mnemonic whose master key is valid" % r
+        xprv, xpub, strength, seed, mn = r
+        if mn not in allowed:
+            return "the wallet's mnemonic is neither the one handed in nor the BIP39 sentence of the drawn entropy"
+        if seed != ref_seed(mn, pw):
+            return "seed is not BIP39 to_seed(mnemonic, passphrase)"
+        mk = ref_master(seed)
+        if mk is None:
+            return "root keys for an invalid master key"
+        X = XK(False, 0, b"\0\0\0\0", 0, mk[1], mk[0])
+        if xprv != X.ser():
+            return "root_xprv is not the serialised BIP32 master key of the seed"
+        if xpub != X.neuter(C).ser():
+            return "root_xpub is not the neutered master key"
+        if mk[0] < C["n"]:        # always on secp256k1; on the small curves the master key is rarely below the group order
+            ok2, r2 = _try(lambda: _get_xpub(cv, M, xprv))
+            if not ok2 or r2 != xpub:
+                return "get_xpub(root_xprv) != root_xpub"
+        return None
+    if op == "hd_get_root_keys":
+        k, c = a[2], a[3]
+        if not (isinstance(k, int) and 1 <= k < C["n"] and len(c) == 32):
+            return None
+        ok, r = _try(lambda: _hd_get_root_keys(cv, M, k, c))
+        X = XK(False, 0, b"\0\0\0\0", 0, c, k)
+        if not ok:
+            return "get_root_keys raised %r on a valid master key" % r
+        return None if tuple(r) == (X.ser(), X.neuter(C).ser()) else "get_root_keys differs from the BIP32 serialisation"
+    if op == "hd_get_xkeys_from_path":
+        k, c, path = a[2], a[3], a[4]
+        ok, r = _try(lambda: _hd_get_xkeys_from_path(cv, M, k, c, path))
+        if not ok:
+            return None      # as the method stands it refuses every path (Props/C09Ext.v)
+        parsed = _canonical_path(path)
+        if parsed is None or parsed[0] or not 1 <= k < C["n"]:
+            return "get_xkeys_from_path returned keys for a malformed request"
+        want = ref_derive(C, hf, XK(False, 0, b"\0\0\0\0", 0, c, k), parsed[1])
+        if isinstance(want, str) or tuple(r) != (want.ser(), want.neuter(C).ser()):
+            return "get_xkeys_from_path differs from the BIP32 derivation"
+        return None
+    if op == "hd_from_xkey":
+        ok, r = _try(lambda: _hd_from_xkey(*a))
+        return None if not ok else "from_xkey returned %r (declared not implemented)" % (r,)
+    return "no literal statement registered for op %s" % op
+
+
 def prop_oracle(c):
     op, a = c["op"], c["args"]
+    if op in HD_OPS:
+        return _oracle_hd(op, a)
     if op == "py_int":
         return None
     if op == "master":
@@ -1527,7 +1917,8 @@ def extra_checks(ctx):
     n_eval = 0
     for c in cases:
         cv = c["args"][0] if c["op"] not in ("py_int", "master", "ser", "ser43", "root") else None
-        heavy = cv == 0 and c["op"] in ("derive", "derive_stepwise", "commute", "ckdpriv", "ckdpub", "get_xpub", "cli_hd", "master_chain")
+        heavy = cv == 0 and c["op"] in ("derive", "derive_stepwise", "commute", "ckdpriv", "ckdpub", "get_xpub", "cli_hd", "master_chain",
+                                        "derive_child_body", "hd_init", "hd_from_mnemonic", "hd_then_new", "hd_get_root_keys")
         kind = "secp" if heavy else "cheap"
         lim = (3 if T else 1) if heavy else (40 if T else 4)
         if budget[kind] <= 0 or per_cls.get(c["cls"], 0) >= lim or c["op"] == "py_int":
